@@ -75,17 +75,20 @@ Record fbuf := mkfbuf { fb_kind : kind; fb_file : file; fb_remain : Z }.
 
 (* Operating-system faults at a representation change.  The operations of
    OverflowableBuffer take a [fault] that says what the environment does while
-   the operation constructs a new file based buffer:
-     FNone       nothing fails (the ordinary semantics; [step] is [step_f FNone]);
-     FCtor k     creating the file object of a buffer of kind k raises
-                 (KTmp: TemporaryFile() with EMFILE / ENOSPC / EACCES; KBio: BytesIO()
-                 with MemoryError) -- self.newfile() / BytesIO() is evaluated before
-                 anything else happens in the constructor;
-     FCopyWrite  the first file.write(data) of the copy loop raises (ENOSPC while
-                 spilling to disk); the source file has been rewound and read by then.
+   the operation constructs and fills a new file based buffer:
+     FNone         nothing fails (the ordinary semantics; [step] is [step_f FNone]);
+     FCtor k       creating the file object of a buffer of kind k raises
+                   (KTmp: TemporaryFile() with EMFILE / ENOSPC / EACCES; KBio: BytesIO()
+                   with MemoryError) -- self.newfile() / BytesIO() is evaluated before
+                   anything else happens in the constructor;
+     FCopyWrite    the first file.write(data) of the copy loop raises (ENOSPC while
+                   spilling to disk);
+     FCreateWrite  the file.write of _create_buffer's buf.append(self.strbuf) raises;
+     FAppendWrite  the file.write of OverflowableBuffer.append's buf.append(s) raises.
    The model copies in one chunk, so FCopyWrite stands for the real code whenever
-   the source holds at most COPY_BYTES bytes. *)
-Inductive fault := FNone | FCtor (k : kind) | FCopyWrite.
+   the source holds at most COPY_BYTES bytes.  The compensating actions of the
+   code (the seek back in a finally block, close() in an except block) do not fail. *)
+Inductive fault := FNone | FCtor (k : kind) | FCopyWrite | FCreateWrite | FAppendWrite.
 
 Definition kind_eqb (a b : kind) : bool :=
   match a, b with KBio, KBio | KTmp, KTmp | KRo, KRo => true | _, _ => false end.
@@ -111,14 +114,15 @@ Definition fb_init (flt : fault) (k : kind) (from_buffer : option fbuf) : init_r
     if f_closed from_file then InitExn ValueErrorClosed from_buffer else
     let read_pos := f_tell from_file in
     let from_file := f_seek_set from_file 0 in
-    let '(data, from_file) := f_read_all from_file in  (* while True: read(COPY_BYTES) ... write *)
+    let '(data, from_file) := f_read_all from_file in  (* try: while True: read(COPY_BYTES) ... write *)
     match flt, data with
-    | FCopyWrite, _ :: _ =>                            (* file.write(data) raises: nothing is restored *)
+    | FCopyWrite, _ :: _ =>                            (* file.write(data) raises *)
+      let from_file := f_seek_set from_file read_pos in  (* finally: from_file.seek(read_pos) *)
       InitExn OSFault (Some (mkfbuf (fb_kind ob) from_file (fb_remain ob)))
     | _, _ =>
       let file := f_write file data in
+      let from_file := f_seek_set from_file read_pos in  (* finally: from_file.seek(read_pos) *)
       let remain := Z.of_nat (f_tell file) - Z.of_nat read_pos in
-      let from_file := f_seek_set from_file read_pos in
       let file := f_seek_set file read_pos in
       InitOk (mkfbuf k file remain)
     end
@@ -126,14 +130,22 @@ Definition fb_init (flt : fault) (k : kind) (from_buffer : option fbuf) : init_r
 
 Definition fb_len (b : fbuf) : Z := fb_remain b.
 
-Definition fb_append (b : fbuf) (s : bytes) : outcome fbuf :=
+(* [write_fails]: file.write(s) raises (see [fault]); the finally block seeks back *)
+Definition fb_append (write_fails : bool) (b : fbuf) (s : bytes) : outcome fbuf :=
   let file := fb_file b in
   if f_closed file then Exn ValueErrorClosed else
   let read_pos := f_tell file in
   let file := f_seek_end file in
+  if write_fails then                                  (* try: file.write(s) raises *)
+    let file := f_seek_set file read_pos in            (* finally: file.seek(read_pos) *)
+    Exn OSFault                                        (* the buffer object is as it was *)
+  else
   let file := f_write file s in
-  let file := f_seek_set file read_pos in
+  let file := f_seek_set file read_pos in              (* finally: file.seek(read_pos) *)
   Ok (mkfbuf (fb_kind b) file (fb_remain b + lenZ s)).
+
+Definition is_create_write (flt : fault) : bool := match flt with FCreateWrite => true | _ => false end.
+Definition is_append_write (flt : fault) : bool := match flt with FAppendWrite => true | _ => false end.
 
 Definition fb_get (b : fbuf) (numbytes : Z) (skip : bool) : outcome (fbuf * bytes) :=
   let file := fb_file b in
@@ -219,8 +231,10 @@ Definition o_create_buffer (flt : fault) (overflow : N) (o : obuf) : obuf * outc
     match strbuf with
     | [] => (o1, Ok buf)
     | _ :: _ =>
-      match fb_append buf (ob_strbuf o1) with
-      | Exn e => (o1, Exn e)
+      match fb_append (is_create_write flt) buf (ob_strbuf o1) with
+      | Exn e =>
+        (* except BaseException: self.buf = None; self.overflowed = False; buf.close(); raise *)
+        (mkobuf None (ob_strbuf o1) false, Exn e)
       | Ok buf' => (mkobuf (Some buf') [] (ob_overflowed o1), Ok buf')
       end
     end
@@ -228,7 +242,7 @@ Definition o_create_buffer (flt : fault) (overflow : N) (o : obuf) : obuf * outc
 
 (* the part of append() after "buf" is known: buf.append(s) and the overflow test *)
 Definition o_append_tail (flt : fault) (overflow : N) (s : bytes) (o1 : obuf) (buf : fbuf) : obuf * outcome unit :=
-  match fb_append buf s with
+  match fb_append (is_append_write flt) buf s with
   | Exn e => (o1, Exn e)
   | Ok buf' =>
     let o2 := mkobuf (Some buf') (ob_strbuf o1) (ob_overflowed o1) in
